@@ -638,6 +638,171 @@ def declared_job(ck, prog, natbin):
     native.close()
 
 
+# ------------------------------------------------------------------------------------------------ part (b): bounds of emitted impls
+def bounds_job(ck, derive, body, loaded):
+    """the impl a derive emits repeats the receiver's generics and where clause and bounds exactly the declared type parameters
+    used by fields that are actually parsed (reads the abstract token list of derive_common's token model)"""
+    from props import derive_common as D
+    from props.derive_common import Focus
+    from props.C12 import rep
+    from vlib.view import L
+    prog, natbin = loaded
+    names = ["field_a", "field_b", "field_c"]
+    if body == "struct":
+        focus = Focus("bounds-struct", body=("Struct",), style=("Named",), nf=(1, 2), generics=(1, 2), fattrs=(0, 1), items=(1, 1), simple=True, item_names=["skip", "rename"],
+                      field_names=names, where_clause=True)
+    else:
+        focus = Focus("bounds-enum", body=("Enum",), style=("Unnamed",), nf=(1, 1), nv=(1, 2), generics=(1, 2), vattrs=(0, 1), items=(1, 1), simple=True, item_names=["skip", "rename"],
+                      field_names=names)
+    I, e, leaves = D.explore(ck, prog, derive, focus)
+    gt = prog.find_ty("syn::Generics")
+    params_names = "TU"
+    for l in leaves:
+        if l.status != "returned":
+            ck.obligations += 1
+            ck.engine("bounds %s[%s]: leaf %s %s" % (derive, focus.tag, l.status, str(l.info or l.panics)[:200]))
+            continue
+        out = D.outcome(I, l)
+        if out[0] != "impl":
+            continue
+        toks = l.ret.data[1]
+        snap = None
+        origins = []
+        for t in toks:
+            if t[0] == "node" and str(t[1]).startswith("syn::ImplGenerics") and len(t) > 4:
+                snap = t[4]
+            if t[0] == "node" and t[3]:
+                origins.append(t[3])
+        ng = l.decisions.get("di*.generics.params#len", 0)
+        wc = l.decisions.get("di*.generics.where_clause#d")
+        if snap is None:
+            ck.obligations += 1
+            ck.report("bounds:%s:no-generics" % derive, "the emitted impl carries no impl generics", {"property": "C19", "crate": "hmacro", "request": "(derive %s ..)" % derive})
+            continue
+        gv = view(I, l, snap, gt.id)
+        # parameters of the emitted impl, by identity of origin
+        pv = gv["params"]
+        plist = []
+        if isinstance(pv, dict):
+            for pair in pv.get("inner", []):
+                plist.append(pair[0] if isinstance(pair, (list, tuple)) else pair.get("0"))
+            last = pv.get("last")
+            if isinstance(last, dict) and last.get("_v") == "Some":
+                plist.append(last["0"])
+        good, why = True, ""
+        if len(plist) != ng:
+            good, why = False, "%d generic parameters in the impl for %d declared" % (len(plist), ng)
+        # which declared parameters are used by parsed fields
+        used = set()
+        undecided = False
+        dk = l.decisions.get("di*.data#d")
+
+        def skipped(at):
+            n = l.decisions.get(at + "#len", 0)
+            for j in range(n):
+                lst = "%s[%d].meta.List.0.tokens.parsed" % (at, j)
+                if l.decisions.get("%s[%d].meta#d" % (at, j)) != 1 or l.decisions.get(lst + "#d") != 0:
+                    continue
+                for i in range(l.decisions.get(lst + ".Ok.0#len", 0)):
+                    mb = "%s.Ok.0[%d].Meta.0" % (lst, i)
+                    wk = mb + ".path.segments[0].ident#word"
+                    if wk in l.decisions and focus.item_names[l.decisions[wk]] == "skip":
+                        f = l.decisions.get(mb + "#d")
+                        if f == 0:
+                            return True
+                        if f == 2:
+                            bv = z3.Bool(mb + ".NameValue.0.value.Lit.0.lit.Bool.0.value")
+                            fact = (l.extra.get("sfacts") or {}).get(mb + ".NameValue.0.value.Lit.0.lit.Str.0.value")
+                            if fact and fact != "complex" and fact[0] == "eq":
+                                return fact[1] == "true"
+                            if ck.implies(l.pc, bv):
+                                return True
+                            if ck.implies(l.pc, z3.Not(bv)):
+                                return False
+                            return None
+            return False
+
+        def ty_param(tb):
+            var = tb + ".Path.0.path.segments[0].ident.sym"
+            fact = (l.extra.get("sfacts") or {}).get(var)
+            if fact and fact != "complex" and fact[0] == "eq":
+                return fact[1]
+            return "other"
+        if dk == 0:
+            lst = "di*.data.Struct.0.fields.Named.0.named"
+            for i in range(l.decisions.get(lst + "#len", 0)):
+                sk = skipped("%s[%d].attrs" % (lst, i))
+                if sk is None:
+                    undecided = True
+                elif not sk:
+                    used.add(ty_param("%s[%d].ty" % (lst, i)))
+        elif dk == 1:
+            for i in range(l.decisions.get("di*.data.Enum.0.variants#len", 0)):
+                vb = "di*.data.Enum.0.variants[%d]" % i
+                sk = skipped(vb + ".attrs")
+                if sk is None:
+                    undecided = True
+                elif not sk:
+                    fl = vb + ".fields.Unnamed.0.unnamed"
+                    for j in range(l.decisions.get(fl + "#len", 0)):
+                        used.add(ty_param("%s[%d].ty" % (fl, j)))
+        if undecided:
+            ck.obligations += 1
+            ck.engine("bounds %s[%s]: the value of a skip option is not decided on the leaf" % (derive, focus.tag))
+            continue
+        for i, p in enumerate(plist[:ng]):
+            if not good:
+                break
+            tp = p.get("0") if isinstance(p, dict) and p.get("_v") == "Type" else None
+            if tp is None:
+                good, why = False, "parameter %d is not the declared type parameter" % i
+                break
+            idv = tp.get("ident")
+            if not (hasattr(idv, "data") and idv.data[1] == ("in", "di*.generics.params[%d].Type.0.ident" % i)):
+                good, why = False, "parameter %d is not the receiver's parameter (by origin)" % i
+                break
+            b = tp.get("bounds")
+            has_bound = not isinstance(b, L)
+            if has_bound:
+                txt = rep(b)
+                if "pq(::darling::" not in txt:
+                    good, why = False, "the bounds of `%s` were rewritten but carry no conversion-trait bound" % params_names[i]
+                    break
+                if txt.count("pq(::darling::") != 1:
+                    good, why = False, "`%s` carries the conversion-trait bound more than once" % params_names[i]
+                    break
+            want = params_names[i] in used
+            if has_bound != want:
+                good, why = False, "`%s` %s the conversion-trait bound although it is %s by a parsed field (fields use %s)" % (
+                    params_names[i], "gets" if has_bound else "lacks", "not used" if has_bound else "used", sorted(used))
+        if good and wc == 1 and not any(o == "di*.generics.where_clause.Some.0" or o.startswith("di*.generics.where_clause.Some.0.") for o in origins):
+            good, why = False, "the receiver's where clause is not repeated in the impl"
+        ck.reach("bounds:%s" % ("some" if used & set(params_names[:ng]) else "none"))
+        if good:
+            ck.ok()
+            continue
+        ck.obligations += 1
+        src = D.Src(prog, l, lambda l=l: ck.model_of(l.pc), darling=True, item_names=focus.item_names)
+        text = src.item_source(focus.field_names)
+        # the witness' field types must follow the leaf: T / U / other
+        req = "(derive_text %s %s)" % (derive, sx_str(text))
+        native = Native(natbin)
+        nat = native.ask(req)
+        native.close()
+        out_text = nat.get("result") if isinstance(nat, dict) else None
+        if not isinstance(out_text, str) or " for Foo" not in out_text:
+            ck.engine("bounds %s: %s; the native derive output could not be read (%s -> %s)" % (derive, why, req, str(nat)[:120]))
+            continue
+        header = out_text[:out_text.index(" for Foo")]
+        native_bounded = {p_ for p_ in params_names[:ng] if re.search(r"\b%s : :: darling ::" % p_, header)}
+        want_bounded = used & set(params_names[:ng])
+        if native_bounded == want_bounded and "where clause" not in why:
+            ck.engine("bounds %s: %s, but the natively emitted impl bounds exactly %s (%s)" % (derive, why, sorted(native_bounded), req))
+            continue
+        ck.report("bounds:%s:%s" % (derive, re.sub(r"[^a-z ]", "", why)[:40].strip()), why, {"property": "C19", "crate": "hmacro", "request": req, "used_by_parsed_fields": sorted(used),
+                                                                                                  "natively_bounded": sorted(native_bounded), "observed": header[-300:]})
+
+
 TOPS = ["Slice", "Array", "Ptr", "Reference", "Paren", "Group", "Tuple", "BareFn", "Path", "TraitObject", "ImplTrait"]
 
 
@@ -677,6 +842,13 @@ def prepare(ck):
         jobs.append(lambda sub, entry=entry, mode=mode: explore_job(sub, prog, natbin, entry, mode, Pol(0, nfix=2, roots=("tys*[0]", "tys*[1]")), "vec", quick, coll="vec"))
     jobs.append(lambda sub: explore_job(sub, prog, natbin, "entry_tp_fields", "tp", Pol(0, nfix=2), "fields", quick, coll="fields"))
     jobs.append(lambda sub: declared_job(sub, prog, natbin))
+    # part (b): the bounds of emitted impls (FromMeta and FromDeriveInput derives; struct and enum receivers)
+    from props import derive_common
+    loaded = derive_common.load()        # dumped once here, not concurrently inside the workers
+    ck.programs.add("hmacro (darling_core::derive::from_meta / from_derive_input)")
+    for dv in ("from_meta", "from_derive_input"):
+        for body in (("struct", "enum") if dv == "from_meta" else ("struct",)):
+            jobs.append(lambda sub, dv=dv, body=body: bounds_job(sub, dv, body, loaded))
     ck.bounds = {"type_nesting_depth": "1 for every outermost form" + ("" if quick else "; 2 below wrappers and tuples"),
                  "query_set": "0..2 symbolic names (equal or not) at depth 0 and for collections; 1..2 names below",
                  "collections_per_node": "0..2 at the outermost level, 0..1 below (0..1 everywhere under path / trait-object / impl-trait forms)",
@@ -693,7 +865,7 @@ def prepare(ck):
 def main():
     ck = Check("C19")
     ck.run_jobs(prepare(ck))
-    ck.require_reached(["uses:0", "uses:1", "uses:2", "declared"])
+    ck.require_reached(["uses:0", "uses:1", "uses:2", "declared", "bounds:some", "bounds:none"])
     ck.finish()
 
 
